@@ -39,6 +39,52 @@ fn get_fract_part(value: f64, precision: i32, int_len: usize) -> Vec<char> {
     b[2..last_non_zero].to_vec()
 }
 
+/// Rounds `value` to `decimals` decimal places half away from zero, after reduction to the
+/// 15 significant digits the engine works with. The rounding is done on the decimal digits
+/// (like ROUND and FIXED do), so 0.15 shows as 0.2 with one decimal and 2.5 as 3 with none,
+/// whatever their binary expansion is.
+fn round_decimal_places(value: f64, decimals: usize) -> f64 {
+    if !value.is_finite() || value == 0.0 {
+        return value;
+    }
+    // d.dddddddddddddde[-]xx
+    let s = format!("{:.14e}", value.abs());
+    let (mantissa, exponent) = match s.split_once('e') {
+        Some((m, e)) => (m, e.parse::<i32>().unwrap_or(0)),
+        None => return value,
+    };
+    let digits: Vec<u8> = mantissa
+        .bytes()
+        .filter(|b| b.is_ascii_digit())
+        .map(|b| b - b'0')
+        .collect();
+    // number of leading digits that stay
+    let keep = 1 + exponent as i64 + decimals as i64;
+    if keep >= digits.len() as i64 {
+        // nothing to round within the 15 significant digits
+        return value;
+    }
+    if keep < 0 {
+        return 0.0;
+    }
+    let keep = keep as usize;
+    let mut n: u64 = 0;
+    for d in &digits[..keep] {
+        n = n * 10 + (*d as u64);
+    }
+    if digits[keep] >= 5 {
+        n += 1;
+    }
+    let rounded = format!("{}e{}", n, exponent as i64 + 1 - keep as i64)
+        .parse::<f64>()
+        .unwrap_or(value.abs());
+    if value < 0.0 {
+        -rounded
+    } else {
+        rounded
+    }
+}
+
 /// Return true if we need to add a separator in position digit_index
 /// It normally happens if if digit_index -1 is 3, 6, 9,... digit_index ≡ 1 mod 3
 fn use_group_separator(use_thousands: bool, digit_index: i32, group_sizes: &str) -> bool {
@@ -434,24 +480,28 @@ pub fn format_number(value_original: f64, format: &str, locale: &Locale) -> Form
             }
             let tokens = &p.tokens;
             value = value * 100.0_f64.powi(p.percent) / (1000.0_f64.powi(p.comma));
-            // p.precision is the number of significant digits _after_ the decimal point
-            value = to_precision(
-                value,
-                (p.precision as usize) + format!("{}", value.abs().floor()).len(),
-            );
+            // p.precision is the number of digits _after_ the decimal point
+            if !p.is_scientific {
+                value = round_decimal_places(value, p.precision.max(0) as usize);
+            }
             let mut value_abs = value.abs();
             let mut exponent_part: Vec<char> = vec![];
-            let mut exponent_is_negative = value_abs < 10.0;
+            let mut exponent_is_negative = false;
             if p.is_scientific {
                 if value_abs == 0.0 {
                     exponent_part = vec!['0'];
-                    exponent_is_negative = false;
                 } else {
                     // TODO: Implement engineering formatting.
-                    let exponent = value_abs.log10().floor();
-                    exponent_part = format!("{}", exponent.abs()).chars().collect();
+                    let mut exponent = to_precision(value_abs, 15).log10().floor();
                     value /= 10.0_f64.powf(exponent);
-                    value = to_precision(value, 15);
+                    value = round_decimal_places(value, p.precision.max(0) as usize);
+                    if value.abs() >= 10.0 {
+                        // rounding carried into a new digit: 9.995 -> 10.00 -> 1.00E+01
+                        value /= 10.0;
+                        exponent += 1.0;
+                    }
+                    exponent_part = format!("{}", exponent.abs()).chars().collect();
+                    exponent_is_negative = exponent < 0.0;
                     value_abs = value.abs();
                 }
             }
@@ -478,7 +528,8 @@ pub fn format_number(value_original: f64, format: &str, locale: &Locale) -> Form
             let group_separator = symbols.group.to_owned();
             let decimal_separator = symbols.decimal.to_owned();
             // There probably are better ways to check if a number at a given precision is negative :/
-            let is_negative = value < -(10.0_f64.powf(-(p.precision as f64)));
+            // the value has been rounded to the format's precision: it shows a sign unless it is zero
+            let is_negative = value < 0.0;
             let mut needs_period = false;
 
             for token in tokens {
